@@ -92,9 +92,14 @@ func NewFederationClient(
 	identities []*SigningIdentity,
 	options ...ClientOption,
 ) FederationClient {
+	// (the caller's slice is not appended to: it may have spare capacity that
+	// holds further options of the caller's)
+	allOptions := make([]ClientOption, 0, len(options)+1)
+	allOptions = append(allOptions, options...)
+	allOptions = append(allOptions, WithWellKnownSRVLookups(true))
 	return &federationClient{
 		Client: *NewClient(
-			append(options, WithWellKnownSRVLookups(true))...,
+			allOptions...,
 		),
 		identities: append([]*SigningIdentity{}, identities...),
 	}
